@@ -22,6 +22,7 @@ __all__ = (
     "AbstractMarshaller",
     "ContextT",
     "BytesMarshaller",
+    "NoneTypeMarshaller",
     "StringMarshaller",
     "IntegerMarshaller",
     "FloatMarshaller",
@@ -108,6 +109,23 @@ class NoOpMarshaller(AbstractMarshaller[T], tp.Generic[T]):
 
 
 BytesMarshaller = NoOpMarshaller[bytes]
+
+
+class NoneTypeMarshaller(AbstractMarshaller[None]):
+    """A marshaller for `None`: the only value it accepts (and emits) is `None`."""
+
+    def __call__(self, val: None) -> None:
+        """Pass `None` through.
+
+        Args:
+            val: The value to marshal.
+
+        Raises:
+            ValueError: If `val` is not `None`.
+        """
+        if val is not None:
+            raise ValueError(f"{val!r} is not None")
+        return None
 
 
 class CastMarshaller(AbstractMarshaller[T], tp.Generic[T]):
